@@ -181,3 +181,28 @@ Section Hist.
     | c :: r => let '(ms', o) := do_hcall n p ms c in o :: hhistory n p ms' r
     end.
 End Hist.
+
+(* ---------------------------------------------------------------- several machine objects in one process *)
+(* Machine objects are told apart by an identity; a call names the object, the pipeline and the
+   number of scales.  Objects share nothing but the class-level dictionaries (modelled above:
+   validity of a step is a function of the step, [step_ok]). *)
+Section World.
+  Variable check_tbl run_tbl : list transition.
+  Variable step_ok : step -> bool -> bool.
+  Variable mc_step_of : list step -> Z.    (* the `step` parameter of a pipeline's matching-cost step *)
+
+  Definition world := Z -> machine * Z.
+  Record wop := mkWop { w_mid : Z; w_call : hcall; w_n : nat; w_p : list step }.
+
+  Definition wstep (w : world) (o : wop) : world * houtcome :=
+    let '(ms', out) := do_hcall check_tbl run_tbl step_ok (mc_step_of (w_p o)) (w_n o) (w_p o) (w (w_mid o)) (w_call o) in
+    (fun j => if Z.eqb j (w_mid o) then ms' else w j, out).
+
+  (* outcomes of the calls made on object [a], in order *)
+  Fixpoint whistory (a : Z) (w : world) (ops : list wop) : list houtcome :=
+    match ops with
+    | [] => []
+    | o :: r => let '(w', out) := wstep w o in
+                if Z.eqb (w_mid o) a then out :: whistory a w' r else whistory a w' r
+    end.
+End World.
